@@ -641,7 +641,7 @@ def gen_raw_family(rng, legacy, idx, note, irregular):
             if r < 0.5:
                 sname = name + rng.choice(['', '_total', '_created', '_gsum', '_gcount', '_bucket', '_count', '_sum', '_info', '_x'])
             elif r < 0.8:
-                sname = gen_name(rng, legacy, idx + 50)
+                sname = gen_name(rng, legacy, idx + 50, adversarial=False if legacy else None)
             else:
                 sname = gen_name(rng, legacy, idx + 50, adversarial=not legacy)
         else:
@@ -881,7 +881,7 @@ class Runner:
         text = res['text']
         for sig, what in res['fails']:
             self.sigs[sig] = self.sigs.get(sig, 0) + 1
-            self.fail_records.append((sig, what, spec))
+            self.fail_records.append((sig, what, spec, len(text or '')))
         if text is None:
             ctx.case(None, None)
             return res
@@ -951,7 +951,7 @@ class Runner:
     def flush(self):
         if not self.reqs:
             return
-        replies = self.ctx.driver.run(self.reqs)
+        replies = c14text.drv_run(self.ctx, self.reqs)
         if replies is not None:
             for rep, h in zip(replies, self.handlers):
                 h(rep)
@@ -961,13 +961,13 @@ class Runner:
         """minimise one witness per signature and hand the failures to ctx (unexpected classes first)"""
         ctx = self.ctx
         by_sig = {}
-        for sig, what, spec in self.fail_records:
-            by_sig.setdefault(sig, []).append((what, spec))
+        for sig, what, spec, tlen in self.fail_records:
+            by_sig.setdefault(sig, []).append((what, spec, tlen))
         known_first = lambda s: (s.startswith('C03:name-trailing-newline') or s.startswith('C03:label-name-unvalidated'), s)
         witnesses = {}
         for sig in sorted(by_sig, key=known_first):
-            recs = sorted(by_sig[sig], key=lambda r: len(repr(r[1])))[:3]
-            for n, (what, spec) in enumerate(recs):
+            recs = sorted(by_sig[sig], key=lambda r: (r[2], len(repr(r[1]))))[:3]
+            for n, (what, spec, _) in enumerate(recs):
                 if n == 0:
                     small = shrink_spec(spec, sig)
                     r = evaluate(small)
@@ -1019,6 +1019,8 @@ def run(ctx):
             if res.get('text') and rng.random() < 0.1:
                 texts.append((res['text'][:600], spec['legacy']))
     R.flush()
+    phases = {'corpus+exhaustive': round(time.time() - t0, 1)}
+    t1 = time.time()
     for i in range(n_random):
         legacy = rng.random() < 0.4
         spec = gen_registry(rng, legacy, R.note)
@@ -1030,6 +1032,9 @@ def run(ctx):
             if time.time() - t0 > budget * 0.7:
                 ctx.count('budget-stop:random')
                 break
+    R.flush()
+    phases['random'] = round(time.time() - t1, 1)
+    t1 = time.time()
     # malformed stream
     pool = c14text.token_pool()
     for i in range(n_malformed):
@@ -1049,7 +1054,12 @@ def run(ctx):
             ctx.count('budget-stop:malformed')
             break
     R.flush()
+    phases['malformed'] = round(time.time() - t1, 1)
+    t1 = time.time()
     R.report()
+    phases['report+shrink'] = round(time.time() - t1, 1)
+    ctx.extra['c03_phase_s'] = phases
+    print('C03 phases (s): %s' % phases)
     ctx.rule = ('registries from declarative specs: instrumentation classes, every *MetricFamily helper and raw Metric.add_sample '
                 'through custom collectors, both legacy settings; corpus of known witnesses and adjacency cases; every string of '
                 'length <= %d over {\\ " \\n n , space } a} as label value (three placements) and as help (family and trailing '
@@ -1081,7 +1091,7 @@ def replay(ctx, case):
                     for f in res['outcome'][1]:
                         print('   ', f.name, f.type, repr(f.documentation), [tuple(s)[:4] for s in f.samples][:6])
         R.flush()
-        for sig, what, _ in R.fail_records:
+        for sig, what, _, _ in R.fail_records:
             print('REPLAY-FAIL', sig, what)
         for d in ctx.divergences:
             print('REPLAY-DIVERGE', d['what'])
@@ -1097,7 +1107,7 @@ def replay(ctx, case):
     if 'request' in c:
         print('REPLAY function-level request %r (recorded real=%r model=%r); re-running the function-level suite' % (
             c['request'][:200], c.get('real'), c.get('model')))
-        rep = ctx.driver.run([c['request']])
+        rep = c14text.drv_run(ctx, [c['request']])
         print('REPLAY model now replies %r' % (rep[0] if rep else None))
         bad = corecheck.run(ctx)
         for d in ctx.divergences[:10]:
